@@ -69,7 +69,7 @@ func run(c *lib.Ctx) error {
 	}
 	wg.Add(2)
 	go model("MCStrRe:laws-pair", mcCfg("pair", 3, c.Pick(1, 2), tierName(c), "{9, 0, 1, 2, 3}", laws), c.Pick(2, 4))
-	go model("MCStrRe:laws-unary", mcCfg("unary", c.Pick(3, 4), 0, "quick", "{9}", laws), c.Pick(2, 4))
+	go model("MCStrRe:laws-unary", mcCfg("unary", c.Pick(3, 4), 0, tierName(c), "{9}", laws), c.Pick(2, 4))
 
 	// ---- G
 	var jobs []genJob
@@ -81,9 +81,12 @@ func run(c *lib.Ctx) error {
 		}
 	} else {
 		jobs = []genJob{
-			{"pair-wide", "pair", 4, 2, "thorough", "{9, 0, 2}"},
-			{"pair-long", "pair", 5, 2, "quick", "{9, 3}"},
-			{"unary", "unary", 4, 0, "quick", "{9}"},
+			{"pair", "pair", 4, 2, "quick", "{9, 1}"},
+			{"pair-max", "pair", 3, 1, "quick", "{0, 2, 3}"},
+			{"pair-wide", "pair", 3, 2, "thorough", "{9}"},
+			{"pair-long", "pair", 5, 1, "quick", "{9}"},
+			{"unary", "unary", 3, 0, "quick", "{9}"},
+			{"unary-long", "unary", 4, 0, "thorough", "{9}"},
 		}
 	}
 	var bounds []map[string]any
@@ -112,7 +115,7 @@ func run(c *lib.Ctx) error {
 	c.Set("case_images_left_to_judge", map[string]any{"cases": g.nLeft, "judged": len(g.caseLeft)})
 
 	// ---- V: str builtins on random texts (+ the generated texts whose case images are not unique)
-	sc := randomStrCases(c, pool, c.Pick(2500, 20000))
+	sc := randomStrCases(c, pool, c.Pick(2500, 6000))
 	sc = append(sc, g.caseLeft...)
 	c.Logf("judging %d recorded str cases (%d from the generator with alternative case images)", len(sc), len(g.caseLeft))
 	bad, err := lib.Judge(c, "JudgeStr", dir, "JudgeStr", sc, c.Pick(3, 6), 25*time.Minute)
